@@ -43,7 +43,8 @@ ASSUMPTIONS = ['supported size family = pv/families.py']
 REQUIRED_COUNTERS = ['edges_geometry_checked', 'sweep_steps_observed',
                      'edge_flips_observed', 'decodes_observed',
                      'clean_stops_checked', 'tie_breaks_observed',
-                     'edges_flipped_twice_observed', 'all_8_directions']
+                     'edges_flipped_twice_observed', 'all_8_directions',
+                     'interleaved_lattice_sequences']
 SHARD_TIMEOUT = {'quick': 900, 'thorough': 5400}
 
 HOME = {
@@ -397,6 +398,19 @@ def plan(tier, seed):
                 tasks.append({'kind': 'geom', 'decoder': dname, 'cls': cls,
                               'size': list(s),
                               'cost': fam.n_estimate(cls, s) * 0.6 + 30})
+    # the two home lattices of one decoder, same size, in ONE process and in
+    # both orders (anything shared between decoder instances shows here)
+    for dname, classes in HOME.items():
+        seq_sizes = [(2, 2, 2), (3, 3, 3), (2, 3, 4)] if tier == 'quick' \
+            else [(2, 2, 2), (3, 3, 3), (2, 3, 4), (4, 2, 2), (4, 4, 2),
+                  (2, 4, 3)]
+        for s in seq_sizes:
+            if not all(fam.SUPPORTED[c](*s) for c in classes):
+                continue
+            for order in ([0, 1, 0], [1, 0, 1]):
+                tasks.append({'kind': 'geomseq', 'decoder': dname,
+                              'seq': [[classes[i], list(s)] for i in order],
+                              'cost': 3 * fam.n_estimate(classes[0], s)})
     small = {'Toric3DCode': (2, 2, 3), 'Planar3DCode': (2, 2, 2),
              'RotatedPlanar3DCode': (2, 2, 2), 'RotatedToric3DCode': (2, 2, 2)}
     small_t = {'Toric3DCode': (3, 3, 3), 'Planar3DCode': (3, 3, 3),
@@ -451,6 +465,10 @@ def plan(tier, seed):
 def run_task(task, out):
     if task['kind'] == 'geom':
         run_geom(task, out)
+    elif task['kind'] == 'geomseq':
+        for cls, size in task['seq']:
+            check_geometry(out, task['decoder'], cls, tuple(size))
+        out.count('interleaved_lattice_sequences')
     else:
         if not task.get('geometry', True):
             # still need to know which edges are wrong for tagging
